@@ -191,6 +191,8 @@ def run(run: core.Run) -> int:
                     sets.append({"rs": json.loads(l)["rs"], "origin": {"kind": "corpus"}})
         sets += dc.routine_sets_from_programs(run, pool, n, cfgs_for(run.tier))
         sets = wf_filter(sets, drv, jobs)
+        for i, s_ in enumerate(sets):
+            s_["twice"] = i % 6 == 5     # every sixth set: the answer of a second convert() of the same decompiler object
         results = dc.pipeline_all(pool, sets, timeout=30, single_timeout=8)
         fails, cnt = evaluate(sets, results, drv, jobs)
         n_viol = 0
